@@ -167,6 +167,42 @@ Proof. exact w_layout_nests. Qed.
 Print Assumptions c15_layout_existing_target_nests.
 
 (* ------------------------------------------------------------------------------------------------ *)
+(* folder-layout migration with ./tally on another file system: shutil.move is a LIST of effects
+   (mkdir, one copy per file, one unlink per file, rmdir - C15/XMove.v), and the statement quantifies over
+   every interruption point of that list: a crash there ([fault] = false) or that step raising OSError
+   ([fault] = true: copytree still copies the files after a failed copy) *)
+Definition c15_layout_xdev_migration_safe_statement : Prop :=
+  forall (O : oracle) (s0 r0 : string) (d : option string) (t fault : bool) (k j n : nat),
+    mf O s0 = MfKey [Aconfig; Arules] ->
+    let f0 := layout_budget s0 r0 d None t None false in
+    let f1 := xinterrupt fault (xupdate_ops O f0) k j n f0 in
+    let f2 := xupdate_rerun O f1 in
+    layout_safe O f0 f1 f2 r0.
+
+Theorem c15_layout_xdev_migration_safe_refuted : ~ c15_layout_xdev_migration_safe_statement.
+Proof. exact xlayout_refuted. Qed.
+Print Assumptions c15_layout_xdev_migration_safe_refuted.
+
+Theorem c15_layout_xdev_migration_safe_partial :
+  forall (O : oracle) (s0 r0 : string) (d : option string) (t fault : bool) (k j n : nat),
+    mf O s0 = MfKey [Aconfig; Arules] ->
+    let f0 := layout_budget s0 r0 d None t None false in
+    let f1 := xinterrupt fault (xupdate_ops O f0) k j n f0 in
+    let f2 := xupdate_rerun O f1 in
+    content_kept f0 f1 f2 /\ (xlayout_guard d k = true -> layout_rules_safe O f0 f1 f2 r0).
+Proof. exact xlayout_partial. Qed.
+Print Assumptions c15_layout_xdev_migration_safe_partial.
+
+Theorem c15_layout_xdev_rerun_nests_partial_copy :
+  let f0 := layout_budget "n" "r" None None false None false in
+  let f1 := xcrash (xupdate_ops Ow f0) 4 0 0 f0 in
+  let f2 := xupdate_rerun Ow f1 in
+  resolve_layout Ow f1 = resolve_layout Ow f0 /\ fst (resolve_layout Ow f2) = INone /\
+  content_at f2 [Atally; Aconfig; Aconfig; Arules] = Some "r".
+Proof. exact w_xlayout_rerun_nests. Qed.
+Print Assumptions c15_layout_xdev_rerun_nests_partial_copy.
+
+(* ------------------------------------------------------------------------------------------------ *)
 (* non-vacuity: the hypotheses are satisfiable, the migrations really run, and a completed run ends well *)
 Example c15_example_csv :
   csv_pre Ow Up (Some "s") "c" None /\ yaml_laws Ow (Some "s") "c" /\
@@ -200,4 +236,20 @@ Example c15_example_layout :
   resolve_layout Ow f0 = (INew "r", Some "d") /\
   resolve_layout Ow (crash (update_ops Ow f0) 7 0 0 f0) = (INew "r", Some "d") /\
   resolve_layout Ow (crash (update_ops Ow f0) 2 0 0 f0) = (INew "r", None).
+Proof. vm_compute. repeat split; reflexivity. Qed.
+
+Example c15_example_layout_xdev :
+  let f0 := layout_budget "n" "r" (Some "d") None false None false in
+  xlayout_guard (Some "d") 6 = true /\ xlayout_guard (Some "d") 4 = false /\ xlayout_guard (Some "d") 9 = false /\
+  xupdate_ops Ow f0 =
+    [XB (Mkdir [Atally]);
+     XBegin [Aconfig] [Atally; Aconfig]; XB (Mkdir [Atally; Aconfig]);
+     XCopy [Aconfig; Asettings] [Atally; Aconfig; Asettings]; XCopy [Aconfig; Arules] [Atally; Aconfig; Arules];
+     XUnlink [Aconfig; Asettings]; XUnlink [Aconfig; Arules]; XRmdir [Aconfig];
+     XBegin [Adata] [Atally; Adata]; XB (Mkdir [Atally; Adata]);
+     XCopy [Adata; Adatafile] [Atally; Adata; Adatafile]; XUnlink [Adata; Adatafile]; XRmdir [Adata];
+     XB (OpenTrunc [Atally; Aconfig; Aschema]); XB (Write [Atally; Aconfig; Aschema] "1e");
+     XB (Close [Atally; Aconfig; Aschema])] /\
+  resolve_layout Ow (xcrash (xupdate_ops Ow f0) 16 0 0 f0) = (INew "r", Some "d") /\
+  resolve_layout Ow (xupdate_rerun Ow (xcrash (xupdate_ops Ow f0) 6 0 0 f0)) = (INew "r", Some "d").
 Proof. vm_compute. repeat split; reflexivity. Qed.
